@@ -45,9 +45,25 @@ def _alarm(_sig, _frm):
 signal.signal(signal.SIGVTALRM, _alarm)   # CPU time of this process: independent of machine load
 
 
+RECURSION_HEADROOM = 1000    # CPython's default recursion limit
+
+
+def _stack_depth():
+    f = sys._getframe()
+    n = 0
+    while f is not None:
+        n += 1
+        f = f.f_back
+    return n
+
+
 def limited(fun, limit):
-    """run fun() under a CPU-time limit; returns (result, exc_or_None, seconds)"""
+    """run fun() under a CPU-time limit; returns (result, exc_or_None, seconds).  fun() always gets the same number of
+    interpreter frames (CPython's default limit) no matter how deep the harness itself is when it calls it: a document
+    nested close to the limit behaves the same in the exploration, the shrinker and the replay."""
     t0 = time.time()
+    old_limit = sys.getrecursionlimit()
+    sys.setrecursionlimit(RECURSION_HEADROOM + _stack_depth())
     signal.setitimer(signal.ITIMER_VIRTUAL, limit, 0.2)
     try:
         try:
@@ -56,6 +72,7 @@ def limited(fun, limit):
             return r, None, time.time() - t0
         finally:
             signal.setitimer(signal.ITIMER_VIRTUAL, 0)
+            sys.setrecursionlimit(old_limit)
     except TimeLimit as e:
         return None, e, time.time() - t0
     except RecursionError as e:
@@ -101,6 +118,32 @@ def parse(text):
     return tree
 
 
+def quick_fingerprint(root, cap=400000):
+    """hash of everything a snapshot depends on; None when the walk does not end (cycle / node listed very often)"""
+    acc = []
+    add = acc.append
+    stack = [root]
+    pop = stack.pop
+    n = 0
+    while stack:
+        node = pop()
+        n += 1
+        if n > cap:
+            return None
+        ch = node.children
+        add(id(node))
+        add(id(node.parent))
+        add(id(node.__class__))
+        add(len(ch))
+        add(node.caption)
+        add(getattr(node, "target", None))
+        stack.extend(ch)
+    try:
+        return hash(tuple(acc))
+    except TypeError:
+        return None
+
+
 def analyse(text, limit, full=True):
     """Returns a dict with the snapshots and the pass outcomes; `keys` = the failure keys according to
     the untrusted Python reading (used for shrinking)."""
@@ -123,9 +166,17 @@ def analyse(text, limit, full=True):
             inv.update((v, k) for k, v in wd.items())
         return inv[i]
 
+    last_fp = [None, None]
+
     def snap(label):
+        """snapshot + checks, skipped when nothing a snapshot records (identity, parent link, child list, class, caption,
+        target of any reachable node) changed since the previous one"""
         nonlocal last_line, wf_broken
+        f = quick_fingerprint(tree)
+        if f is not None and f == last_fp[0]:
+            return last_fp[1]
         s = S.Snap(tree, wd)
+        last_fp[0], last_fp[1] = f, s
         line = s.line()
         if s.cycle:
             res.setdefault("cycle", []).append(label)
@@ -180,11 +231,16 @@ def analyse(text, limit, full=True):
             tc3 = TreeCleaner(tree3, save_reports=False)
             res["snaps_ca"] = []
             last3 = None
+            fp3 = None
             broken3 = False
             for k, name in enumerate(tc3.cleaner_methods):
                 _r, e, dt = limited(lambda: tc3.clean([name]), limit)
                 if e is not None:
                     break
+                f3 = quick_fingerprint(tree3)
+                if f3 is not None and f3 == fp3:
+                    continue
+                fp3 = f3
                 s3 = S.Snap(tree3, wd3)
                 line3 = s3.line()
                 if line3 != last3:
@@ -220,7 +276,7 @@ def analyse(text, limit, full=True):
                 if okb and oka:
                     cwb = S.py_cwords(b.root, b.cells)
                     cwa = S.py_cwords(a.root, a.cells)
-                    c7 = S.c07_compare(cwb, S.py_tables(b.root, b.cells), cwa)
+                    c7 = S.c07_compare(cwb, S.py_tables(b.root, b.cells), cwa, S.py_columns(b.root, b.cells), S.py_columns(a.root, a.cells))
                     if c7:
                         res["py_c07"] = list(c7)
                         if c7[0] in ("word-lost", "word-duplicated"):
@@ -263,9 +319,14 @@ def analyse(text, limit, full=True):
 def ddmin(text, key, limit, max_evals=250):
     evals = [0]
 
+    import re
+    empty_section = re.compile(r"(?m)^=+[^\n]*=+[ \t]*\n(?:[ \t]*\n)*(?==|\Z)")
+
     def bad(t):
         if evals[0] >= max_evals:
             return False
+        if key[0] == "c07" and empty_section.search(t if t.endswith("\n") else t + "\n"):
+            return False          # an empty section is a documented removal trigger: outside C07's quantifier
         evals[0] += 1
         try:
             r = analyse(t, limit, full=key[0] not in ("wf", "exc", "timeout") or key[1] == "clean_all")
